@@ -53,6 +53,18 @@ MODES = ["atom", "residue"]
 SEPARATIONS = [0.01, 0.03, 0.06, 0.1, 0.15, 0.2, 0.28, 0.34, 0.45, 0.62, 0.95, 1.3]
 C_TOL = 16           # |dA| <= C_TOL * eps32 * 4 pi R^2 per atom (count*const*R*R in float32: <= 8 roundings)
 
+def _live_table(ctx=None):
+    """The documented radii table: sasa.py's own dict; if that private name is gone, the snapshot in sasa_ref."""
+    try:
+        from mdtraj.geometry.sasa import _ATOMIC_RADII
+        return dict(_ATOMIC_RADII)
+    except Exception:  # noqa: BLE001
+        if ctx is not None:
+            print("WARNING mdtraj.geometry.sasa._ATOMIC_RADII not importable; using the snapshot of the documented table")
+            ctx.assume("radii table taken from the snapshot in vlib/refmodels/sasa_ref.py (private name _ATOMIC_RADII not importable)")
+        return dict(sr.TABLE_SNAPSHOT)
+
+
 _STRUCTS = []        # filled by the parent before fork
 _TABLE = {}
 _PTS = {}
@@ -61,9 +73,9 @@ _PTS = {}
 # --------------------------------------------------------------------------------------------------
 # structures
 
-def _struct(name, kind, atoms, resnames, frames, subsets):
+def _struct(name, kind, atoms, resnames, frames, subsets, maxwin=3, design=None):
     return dict(name=name, kind=kind, atoms=atoms, resnames=resnames,
-                frames=np.asarray(frames, np.float64).astype(np.float32), subsets=subsets)
+                frames=np.asarray(frames, np.float64).astype(np.float32), subsets=subsets, maxwin=maxwin, design=design)
 
 
 def _all_subsets(n):
@@ -97,7 +109,7 @@ def _unit(v):
 
 def build_structures(ctx):
     import mdtraj as md
-    from mdtraj.geometry.sasa import _ATOMIC_RADII
+    _ATOMIC_RADII = _live_table()
     seed, quick = ctx.seed, ctx.quick
     S = []
     missing = []
@@ -165,6 +177,44 @@ def build_structures(ctx):
     fx = fx - fx.mean(axis=(0, 1)) + 1.5
     S.append(_struct("frag-2EQQ", "molecule", fatoms, [r.name for r in list(t.top.residues)[:3]], fx,
                      _menu_subsets(fatoms)))
+    # F. "late big atom" structures for residue mode: few residues, many atoms, and the element with the largest radius
+    # occurs only AFTER the first n_residues atoms in atom order.  Small atom s and big atom b are separated along one
+    # coordinate axis by 2 r_s + 2 p + f (r_b - r_s): for 0 < f < 1 that lies between (R_s + largest radius among the first
+    # n_residues atoms) and (R_s + R_b), i.e. the big atom still buries points of the small one although it is further
+    # away along that axis than any pair of "leading" atoms could reach.  One ladder of f per probe radius; every signed
+    # axis direction (and a generic one).  Single-frame windows only (the multi-frame relation is covered above).
+    FL = [-0.1, 0.05, 0.25, 0.5, 0.75, 0.95, 1.1]
+    design = [(p, f) for p in PROBES for f in FL]
+    T = _ATOMIC_RADII
+
+    def sep(small, big, p, f):
+        return 2 * T[small] + 2 * p + f * (T[big] - T[small])
+    axes = [np.array(a, float) for a in ([1, 0, 0], [-1, 0, 0], [0, 1, 0], [0, -1, 0], [0, 0, 1], [0, 0, -1])]
+    axes.append(rots[1] @ _unit([1, 0.1, 0.05]))
+    for ai, u in enumerate(axes):
+        v = _unit(np.cross(u, [0.3, 0.5, 0.8]))
+        w = np.cross(u, v)
+        o = np.array([1.6, 1.6, 1.6])
+        # [H, I] in one residue
+        S.append(_struct("late-HI-a%d" % ai, "latebig", [("H1", "H", 0), ("I1", "I", 0)], ["UNK"],
+                         [[o, o + sep("H", "I", p, f) * u] for p, f in design], _all_subsets(2), maxwin=1, design=design))
+        if ai % 2 == 0 or not quick:
+            # [H, H, S, I] in one residue: H0..S along +u, H1..I along -u
+            S.append(_struct("late-HHSI-a%d" % ai, "latebig", [("H1", "H", 0), ("H2", "H", 0), ("S1", "S", 0), ("I1", "I", 0)], ["UNK"],
+                             [[o, o + 1.3 * v, o + sep("H", "S", p, f) * u, o + 1.3 * v - sep("H", "I", p, f) * u] for p, f in design],
+                             [None, [0, 1], [0, 1, 2, 3], [1, 3], []], maxwin=1, design=design))
+        if ai % 2 == 1 or not quick:
+            # two residues of [H, H, H, Br]: n_residues = 2, both leading atoms are H
+            at = [("H1", "H", 0), ("H2", "H", 0), ("H3", "H", 0), ("BR", "Br", 0), ("H1", "H", 1), ("H2", "H", 1), ("H3", "H", 1), ("BR", "Br", 1)]
+            fr = []
+            for p, f in design:
+                s_ = sep("H", "Br", p, f)
+                a0 = o - 0.6 * w
+                b0 = o + 0.7 * w
+                fr.append([a0, a0 + 1.25 * v, a0 - 1.25 * v, a0 + s_ * u,
+                           b0, b0 + 1.25 * v, b0 - 1.25 * v, b0 - 1.25 * v - s_ * u])
+            S.append(_struct("late-HHHBr2-a%d" % ai, "latebig", at, ["UNK", "UNK"], fr,
+                             [None, [0, 3], [4, 5, 6], [0, 1, 2, 4, 5, 6], list(range(8))], maxwin=1, design=design))
     if not quick:
         # rotated copies of the multi-atom structures about their centroid: the point set is fixed in the
         # laboratory frame, so a rotated molecule buries different points
@@ -215,7 +265,7 @@ def check_config(st, n, probe, cr, only_sig=None):
     import mdtraj as md
     recs = []
     stats = dict(calls=0, nontrivial=0, excl_points=0, excl_atoms=0, err_area=0.0, err_res=0.0, err_multi=0.0,
-                 err_analytic=0.0, err_analytic_n=0.0, suppressed_duplicates=0, bitexact_multi=0, multi_cmp=0, partial_atoms=0, sample=None)
+                 err_analytic=0.0, err_analytic_n=0.0, shell_cases=0, suppressed_duplicates=0, bitexact_multi=0, multi_cmp=0, partial_atoms=0, sample=None)
     atoms = st["atoms"]
     na = len(atoms)
     F = st["frames"].shape[0]
@@ -345,6 +395,8 @@ def check_config(st, n, probe, cr, only_sig=None):
     # ---- windows of 2 and 3 frames: each frame must equal the frame alone ---------------------------
     cst = full / n
     for L in (2, 3):
+        if L > st.get("maxwin", 3):
+            continue
         for a in range(0, F - L + 1):
             for sub in st["subsets"]:
                 multi_atom = None
@@ -390,6 +442,10 @@ def check_config(st, n, probe, cr, only_sig=None):
                         sig = "sasa|multiframe|frame%s|%s" % ("0" if k == 0 else ">=1", expl)
                         rec(sig, "window frames [%d,%d) mode=%s subset=%s: frame %d entry %d = %.9g, the frame alone gives %.9g"
                             % (a, a + L, mode, sub, a + k, i, o[k][i], ref[i]), dict(window=[a, a + L], mode=mode, subset=sub))
+    if st.get("design"):
+        # frames whose ladder was designed for this probe and put the pair inside the shell, with points actually buried
+        stats["shell_cases"] = int(sum(1 for k, (p_, f_) in enumerate(st["design"])
+                                       if abs(p_ - probe) < 1e-12 and 0 < f_ < 1 and (acc[k] + amb[k] < n).any()))
     stats["nontrivial"] = int(((acc > 0) & (acc + amb < n)).any(axis=1).sum())
     if stats["partial_atoms"] and st["kind"] != "isolated":
         f = int(np.argmax(((acc > 0) & (acc + amb < n)).any(axis=1)))
@@ -433,14 +489,20 @@ def _seam_points(ctx, n):
         ctx.assume("kernel seam vlib/kern/sasaseam.cpp did not compile against the tree (internal signatures changed): "
                    "the kernel's sphere-point set was not compared directly; all other comparisons use the public API")
         return None
-    lib = ctypes.CDLL(so)
-    out = np.zeros((n, 3), np.float32)
-    lib.seam_sphere_points(out.ctypes.data_as(ctypes.c_void_p), ctypes.c_int(n))
+    try:
+        lib = ctypes.CDLL(so)
+        out = np.zeros((n, 3), np.float32)
+        lib.seam_sphere_points(out.ctypes.data_as(ctypes.c_void_p), ctypes.c_int(n))
+    except Exception as e:  # noqa: BLE001
+        _SEAM_ERR.append(str(e)[-300:])
+        print("WARNING kernel seam sasaseam could not be loaded/called; point-set comparison skipped")
+        ctx.assume("kernel seam vlib/kern/sasaseam.cpp could not be loaded: the kernel's sphere-point set was not compared directly")
+        return None
     return out
 
 
 def run(ctx):
-    from mdtraj.geometry.sasa import _ATOMIC_RADII
+    _ATOMIC_RADII = _live_table(ctx)
     global _STRUCTS
     _TABLE.clear()
     _TABLE.update(_ATOMIC_RADII)
@@ -484,7 +546,7 @@ def run(ctx):
     # heavy items first for load balance
     items.sort(key=lambda it: -(len(_STRUCTS[it[0]]["atoms"]) * it[1] + 40 * len(_STRUCTS[it[0]]["subsets"]) * _STRUCTS[it[0]]["frames"].shape[0]))
     res = ctx.pmap(_work, items, chunksize=4)
-    tot = dict(suppressed_duplicates=0, calls=0, nontrivial=0, excl_points=0, excl_atoms=0, partial_atoms=0, multi_cmp=0, bitexact_multi=0)
+    tot = dict(shell_cases=0, suppressed_duplicates=0, calls=0, nontrivial=0, excl_points=0, excl_atoms=0, partial_atoms=0, multi_cmp=0, bitexact_multi=0)
     mx = dict(err_area=0.0, err_res=0.0, err_multi=0.0, err_analytic=0.0)
     samples = []
     an_by_n = {}
@@ -515,6 +577,7 @@ def run(ctx):
                  "subsets": "all subsets (+None) for <=5 atoms, menu of %d for larger" % len(_STRUCTS[-1]["subsets"])},
         "excluded_points_within_margin": tot["excl_points"], "atoms_with_excluded_points": tot["excl_atoms"],
         "partially_buried_atom_frames": tot["partial_atoms"],
+        "late_big_atom_shell_cases_with_buried_points": tot["shell_cases"],
         "multiframe_comparisons": tot["multi_cmp"], "multiframe_bit_identical": tot["bitexact_multi"],
         "max_err_over_tol": max([mx["err_area"], mx["err_res"], mx["err_multi"], pt_err] +
                                 [v for k, v in an_by_n.items() if k > 1]),
@@ -534,7 +597,7 @@ def run(ctx):
 
 
 def replay(ctx, rep):
-    from mdtraj.geometry.sasa import _ATOMIC_RADII
+    _ATOMIC_RADII = _live_table(ctx)
     _TABLE.clear()
     _TABLE.update(_ATOMIC_RADII)
     if rep.get("kind") == "radii":
